@@ -142,6 +142,20 @@ def lost_schedule_search(ctx, prog, witness):
     return {'spec_clauses_failing': failing, 'model_admits': model_admits, 'impl_with_pins': str(res), 'pins': pins}
 
 
+def lost_key(prog, tags):
+    """name a lost schedule by the kinds of the elements that reject it (constraints first)"""
+    kinds = set()
+    cons = {terms.nval(o[1]): o[3][0] for o in prog if o[0] == 'ONewConstraint'}
+    for t in tags or []:
+        fam, _, eid = t.partition(':')
+        if fam == 'cons' and eid.isdigit() and int(eid) in cons:
+            kinds.add(cons[int(eid)])
+        else:
+            kinds.add(fam)
+    ck = sorted(k for k in kinds if k.startswith('C'))
+    return 'lost:' + '+'.join(ck if ck else sorted(kinds))
+
+
 def clause_kind(key):
     return key.split('/')[-1]
 
@@ -209,7 +223,8 @@ def run(ctx, replay=None):
         common.violation(ctx, path, found_input=False)
     # ---- 4. tie + sweep ----
     t2 = time.time()
-    results = tie.run_tie(progs, reports, {'spec_prefixes': cfg['spec'], 'sweep': bool(cfg['spec'])})
+    results = tie.run_tie(progs, reports, {'spec_prefixes': cfg['spec'], 'sweep': bool(cfg['spec']),
+                                           'lost_probe': ctx.prop == 'C05', 'seed': ctx.seed, 'lost_tries': 3 if quick else 6})
     t_tie = time.time() - t2
     # ---- 5. decision ----
     stats = collections.Counter()
@@ -337,6 +352,37 @@ def run(ctx, replay=None):
                 common.violation(ctx, path)
                 new_viol += 1
                 break
+    # C05: schedules that satisfy every Spec clause, pinned on the constraint system of /repo (lostprobe.py)
+    if ctx.prop == 'C05':
+        lost_keys = collections.Counter()
+        n_conf = 0
+        for r in results:
+            stats['lost_probe_programs'] += r.get('lost_probed', 0)
+            for cand in r.get('lost', []):
+                stats['lost_probe_candidates'] += 1
+                key = lost_key(progs[r['idx']], cand.get('tags'))
+                if n_conf >= 12 and (key in open_kinds or lost_keys[key] >= 2):
+                    lost_keys[key] += 1
+                    continue
+                ls = lost_schedule_search(ctx, progs[r['idx']], cand['valuation'])
+                n_conf += 1
+                if not ls or ls['spec_clauses_failing'] or ls['impl_with_pins'] != 'unsat':
+                    stats['lost_probe_not_confirmed'] += 1
+                    continue
+                lost_keys[key] += 1
+                if key in open_kinds:
+                    known_hits[key] += 1
+                    continue
+                if new_viol < int(os.environ.get('VERIF_MAX_REPLAYS', '3')):
+                    path = common.write_replay(ctx, 'lost', {
+                        'kind': 'valid-schedule-lost', 'property': 'C05', 'key': key, 'program': terms.dump(progs[r['idx']]),
+                        'program_pretty': pretty(progs[r['idx']]), 'schedule': ls['pins'], 'rejected_by': cand.get('tags'),
+                        'what': 'every Spec clause of the problem holds on this schedule (evaluated by vm_compute), and the constraint system built '
+                                'by /repo is unsatisfiable once the schedule is pinned (start / end / duration of acting tasks, flags, selections); '
+                                'rejected_by is a minimal set of model elements that reject it'})
+                    common.violation(ctx, path)
+                new_viol += 1
+        evidence_cov['lost_schedule_keys'] = dict(lost_keys)
     # tie breaks not explained by a concrete violation
     if tie_breaks and new_viol == 0:
         i, direction, info = tie_breaks[0]
@@ -376,6 +422,7 @@ def run(ctx, replay=None):
                                    'impl_error_kinds': dict(errkinds)},
         'timing_s': {'model': round(t_model, 1), 'tie': round(t_tie, 1)},
     }
+    cov.update(evidence_cov)
     common.write_evidence(ctx, 'proof', cov, [
         'the theorem is about the Coq model; the model is tied to /repo only on the sampled programs (per program the comparison is exact, by z3)',
         'z3 unknown answers on refinement queries: %d (never counted as agreement)' % stats['unknown']])
